@@ -9,12 +9,13 @@ PROP = 'C17'
 LEAN_MODULES = ['BR.Gen.C17']
 THEOREMS = []          # filled by generate(): one generated theorem per subscript of every kernel
 TIE = ('translate/gen_c17.py reads the two JIT modules on every run and regenerates lean/BR/Gen/C17.lean: one theorem per integer subscript / constant slice of every @jit kernel '
-       '("the index lies within the extent"), from the documented argument shapes, the enclosing loop ranges and integer guards, each closed by omega. '
+       '("the index lies within the extent"), from the documented argument shapes, the enclosing loop ranges and integer guards, and one theorem per resolvable argument of every kernel call in arm_model.py / sp_model.py '
+       '("the slice stays inside its parent and the extents the kernel relates are equal at this call"), each closed by omega. '
        'The documented argument and return shapes are checked against the shapes of the inputs really passed and the values really returned. '
        'Every kernel is also run compiled and interpreted (py_func) on C-ordered, Fortran-ordered, sliced and integer-typed arguments, and the whole public surface is run once with NUMBA_BOUNDSCHECK=1 and once without in sub-processes.')
 TRUSTED = ['Lean 4.33 kernel (axioms: propext, Classical.choice, Quot.sound at most; omega)', 'translate/gen_c17.py (AST reader, shape inference for local arrays, table of documented argument/return shapes, one declared loop invariant)',
            'numba itself: that an in-bounds index expression is compiled to an in-bounds access; that NUMBA_BOUNDSCHECK=1 reports every out-of-range scalar index',
-           'the theorems cover the kernels; the call sites in arm_model.py / sp_model.py / faser_transform.py (which slices they pass) are decided by the bounds-checked run only (sampled)',
+           'call-site theorems cover the calls whose arguments are slices of documented state (screw tables, joint vectors, plate joint tables, .TM / .gTM()); arguments built from locals are listed as not resolved in the evidence and are covered by the bounds-checked run only',
            'value agreement compiled = interpreted is decided on the implementation (differential run), not proved']
 ASSUMPTIONS = ['arguments of the documented shapes (ARG_SHAPES in translate/gen_c17.py)', 'values compared to 1e-9 relative']
 RULE = ('all 47 @jit kernels x the argument generators of C01/C02/C09 x {C-ordered, Fortran-ordered, non-contiguous slice of a larger array, integer-typed vectors}; '
@@ -107,6 +108,21 @@ def run(res, tier, seed, driver_ok):
     missing = sorted(set(kernels) - set(gen_c17.ARG_SHAPES))
     if missing:
         res.mismatches.append({'what': 'kernels without documented argument shapes', 'kernels': missing})
+
+    # the documented shapes of the state the call sites slice, on real objects
+    import armh
+    with contextlib.redirect_stdout(io.StringIO()):
+        arm_, spec_ = armh.build(rnd, 'six_r', [0.1, 0.2, 0.3, 0.1, 0.0, 0.2])
+        sp_, g_ = sph.build(rnd)
+    real = {'self.screw_list': arm_.screw_list, 'self.screw_list_body': arm_.screw_list_body, 'self.joint_mins': arm_.joint_mins, 'self.joint_maxs': arm_.joint_maxs,
+            'theta': arm_._theta, 'self._bottom_joints_local': sp_._bottom_joints_local, 'self._top_joints_local': sp_._top_joints_local,
+            'self._bottom_joints_space': sp_._bottom_joints_space, 'self._top_joints_space': sp_._top_joints_space,
+            'self._bottom_joints_init': sp_._bottom_joints_init, 'self._top_joints_init': sp_._top_joints_init}
+    bnd = {'n': arm_.num_dof}
+    for k_, v_ in real.items():
+        stats['shape_table_checks'] += 1
+        if not unify(np.asarray(v_).shape if np.asarray(v_).ndim != 2 or k_ not in ('theta',) else (np.asarray(v_).size,), gen_c17.SITE_SHAPES[k_], bnd):
+            res.mismatches.append({'what': 'documented call-site shape differs from the real object', 'attribute': k_, 'shape': list(np.asarray(v_).shape), 'documented': list(gen_c17.SITE_SHAPES[k_])})
 
     reps = 6 if thorough else 1
     for rep in range(reps):
